@@ -34,10 +34,11 @@
                             the supplier calls (one per distinct module key — C12 `at_most_once`).
 
     * `certMap`/`certReport`  `handle_evil` (minidump-processor/src/evil.rs:57-67): the evil JSON's
-                            `ModuleSignatureInfo` (`HashMap<cert, Vec<module>>`) is inverted by
-                            `for (cert, modules) in certs { for m in modules { map.insert(m, cert) } }`
-                            — iteration order of the OUTER map — and `cert_subject` / the text module
-                            list look every module up by file name.
+                            `ModuleSignatureInfo` (`HashMap<cert, Vec<module>>`) is collected,
+                            sorted by certificate name (fix 2943e9c) and inverted by
+                            `for (cert, modules) in certs { for m in modules { map.insert(m, cert) } }`;
+                            `cert_subject` / the text module list look every module up by file name.
+                            (`certMapUnsorted`: the loop over the map's iteration order.)
 
   Names are byte strings (`List Nat`), compared like Rust's `str::cmp` (`lexLe`).
   `slice::sort_by` is modelled by insertion sort (`isort`): for pairwise distinct keys under a total
@@ -225,13 +226,19 @@ def statsReport (mods : Nat → Mod) (done : List Nat) (shown : List Nat) : List
 /-- `ModuleSignatureInfo` in ITERATION order: certificate name, modules signed with it -/
 abbrev CertInfo := List (List Nat × List (List Nat))
 
-/-- the `(module, cert)` insertions in the order the two nested loops perform them -/
-def certPairs (iter : CertInfo) : List (List Nat × List Nat) :=
-  iter.flatMap fun e => e.2.map fun m => (m, e.1)
+/-- the `(module, cert)` insertions in the order the two nested loops perform them over `entries` -/
+def certPairs (entries : CertInfo) : List (List Nat × List Nat) :=
+  entries.flatMap fun e => e.2.map fun m => (m, e.1)
 
-/-- `cert_map` as an association list, newest insertion first -/
-def certMap (iter : CertInfo) : List (List Nat × List Nat) :=
-  (certPairs iter).foldl (fun m kv => kv :: m) []
+/-- `cert_map` as an association list, newest insertion first, when the outer loop visits
+    `entries` in the given order (before fix 2943e9c: the map's iteration order) -/
+def certMapUnsorted (entries : CertInfo) : List (List Nat × List Nat) :=
+  (certPairs entries).foldl (fun m kv => kv :: m) []
+
+/-- current code (fix 2943e9c): `certs.into_iter().collect::<Vec<_>>()`, `certs.sort()` — the
+    certificate names are the keys of a map, hence pairwise distinct, so the order of the pairs
+    `(name, modules)` is the order of the names — then the nested insert loop -/
+def certMap (iter : CertInfo) : List (List Nat × List Nat) := certMapUnsorted (isort keyLe iter)
 
 def certLookup (m : List (List Nat × List Nat)) (name : List Nat) : Option (List Nat) :=
   (m.find? (·.1 == name)).map (·.2)
@@ -239,6 +246,9 @@ def certLookup (m : List (List Nat × List Nat)) (name : List Nat) : Option (Lis
 /-- `cert_subject` of the modules `shown` (by file name) -/
 def certReport (iter : CertInfo) (shown : List (List Nat)) : List (Option (List Nat)) :=
   shown.map (certLookup (certMap iter))
+
+def certReportUnsorted (iter : CertInfo) (shown : List (List Nat)) : List (Option (List Nat)) :=
+  shown.map (certLookup (certMapUnsorted iter))
 
 /-! ### line protocol
   `det model lim:<E,..|-> mods:<hexleaf=res,..|-> done:<i,i,..|-> thr:<i.i.i|->/<tid,tid,..|-> fixed:<hex,..|-> valid:<hex,..|-> jvalid:<hex,..|-> certs:<hexcert=hexmod+hexmod..,..|-> cshown:<hexname,..|->`
